@@ -381,4 +381,82 @@ def k7(ctx, kr):
     kr.exhaustive = True
     kr.outside = ['texts with more pieces; other pieces (partial keys)']
 
-KERNELS = [k2, k3, k4, k5, k6, k7]
+# ---------------------------------------------------------------------------------------------- K8 nesting up to depth 12: lex, parse, analyse and render return
+NEST_KINDS = ['IF', 'CASE', 'FOR', 'WHILE', 'REPEAT', 'mixed', 'parentheses', 'subscripts', 'call_arguments']
+def _nested_program(kind, depth, pou='FUNCTION_BLOCK'):
+    ind = lambda k: '  ' * (k + 1)
+    def open_(k, i):
+        return {'IF': '%sIF x > %d THEN\n' % (ind(i), i), 'CASE': '%sCASE x OF\n%s  %d:\n' % (ind(i), ind(i), i + 1), 'FOR': '%sFOR x := 1 TO %d DO\n' % (ind(i), i + 2), 'WHILE': '%sWHILE x < %d DO\n' % (ind(i), i + 1), 'REPEAT': '%sREPEAT\n' % ind(i)}[k]
+    def close_(k, i):
+        return {'IF': '%sEND_IF;\n' % ind(i), 'CASE': '%sEND_CASE;\n' % ind(i), 'FOR': '%sEND_FOR;\n' % ind(i), 'WHILE': '%sEND_WHILE;\n' % ind(i), 'REPEAT': '%sUNTIL x > %d\n%sEND_REPEAT;\n' % (ind(i), i, ind(i))}[k]
+    head = '%s p%s\nVAR\n  x : INT;\n  arr : ARRAY[1..9] OF INT;\nEND_VAR\n' % (pou, ' : INT' if pou == 'FUNCTION' else '')
+    tail = 'END_%s\n' % pou
+    if kind == 'parentheses': body = '  x := ' + '(' * depth + 'x' + ' + 1)' * depth + ';\n'
+    elif kind == 'subscripts': body = '  x := ' + 'arr[' * depth + 'x' + ']' * depth + ';\n'
+    elif kind == 'call_arguments': body = '  x := ' + 'f(' * depth + 'x' + ')' * depth + ';\n'
+    else:
+        order = ['IF', 'CASE', 'FOR', 'WHILE', 'REPEAT']
+        ks = [order[i % 5] if kind == 'mixed' else kind for i in range(depth)]
+        body = ''.join(open_(k, i) for i, k in enumerate(ks)) + ind(depth) + 'x := 1;\n' + ''.join(close_(k, i) for i, k in reversed(list(enumerate(ks))))
+    return head + body + tail
+
+def _k8_job(job):
+    kind, pou, depths = job
+    from . import C10 as K10
+    ctx = _CTX; part = Part()
+    P = ctx.program()
+    k_parse = P.find_fn('ironplc-parser', 'parse_program'); k_an = P.find_fn('ironplc-analyzer', 'stages::analyze'); k_write = P.find_fn('ironplc-plc2plc', 'write_to_string')
+    k_opt = [k for k in P.items if k[0] == 'ironplc-parser' and re.search(r'ParseOptions as (std::default::)?Default>::default|options::<impl at [^>]*>::default', k[1])]
+    holder = {}; st = {}
+    M = Machine(P, stubs=K10.dyn_lexer_stubs(ctx, holder), max_steps=2_000_000_000)
+    M.toposort_deterministic = True
+    def entry(M):
+        v = M.fresh_bv('depth', 8); M.declare_domain(v, list(depths))
+        d = depths[-1]
+        for val in depths[:-1]:
+            if M.branch(v == val): d = val; break
+        st['depth'] = d; st['stage'] = 'parse'
+        text = _nested_program(kind, d, pou); st['src'] = text
+        fid = Ref(Cell(Agg('FileId', [Str('f.st')])))
+        opts = Ref(Cell(M.call_fn(k_opt[0], []) if k_opt else Agg('ParseOptions', [False])))
+        r = M.call_fn(k_parse, [Ref(Cell(Str(text))), fid, opts])
+        if r.disc != 0: return 'rejected'
+        st['stage'] = 'analyze'
+        a = M.call_fn(k_an, [Ref(Cell(VecV([Ref(Cell(r.f[0]))])))])
+        st['stage'] = 'render'
+        w = M.call_fn(k_write, [Ref(Cell(r.f[0]))])
+        return 'ok'
+    def on_path(M, pr):
+        part.paths += 1
+        src = st.get('src'); d = st.get('depth')
+        if pr.inconclusive:
+            if 'step budget' in pr.inconclusive: part.add('C04/K8/%s/does-not-finish' % kind, '%s nesting of depth %d in a %s: the front end does not finish within the unwinding bound' % (kind, d, pou), {'source': src}, ('frontend_hang', (src,)))
+            else: part.inconc('%s depth %s: %s' % (kind, d, pr.inconclusive))
+            return
+        part.nontrivial += 1
+        if pr.panic:
+            where = st.get('stage')
+            part.add('C04/K8/%s/%s-panic' % (kind, where), '%s nesting of depth %d in a %s: %s panics: %s' % (kind, d, pou, {'parse': 'parse_program', 'analyze': 'analyze', 'render': 'write_to_string'}.get(where, where), pr.panic.msg[:70]),
+                     {'source': src, 'depth': d}, ('frontend_panic', (src,)))
+        elif pr.result == 'rejected' and kind in ('IF', 'CASE', 'FOR', 'WHILE', 'REPEAT', 'mixed', 'parentheses'): part.inconc('%s depth %d does not parse' % (kind, d))
+        elif len(part.validate) < 1 and d == depths[-1]: part.validate.append(('frontend_panic', (src,)))
+        if len(part.samples) < 1: part.samples.append({'kind': kind, 'depth': d, 'outcome': pr.result if not pr.panic else 'panic'})
+    M.explore(entry, on_path)
+    part.queries += M.stats['smt']; part.encoded = set(M.encoded); part.models = set(M.models_used)
+    return part
+
+@kernel('K8 frontend.nesting_to_depth_12')
+def k8(ctx, kr):
+    global _CTX
+    _CTX = ctx
+    depths = [1, 4, 8, 9, 12] if ctx.tier == 'quick' else list(range(1, 13))
+    kr.bounds = ('statement nesting (IF, CASE, FOR, WHILE, REPEAT, and the five in alternation), parentheses, array subscripts and call arguments nested to the depths %s (symbolic selector), inside a FUNCTION_BLOCK and a PROGRAM: '
+                 'parse_program, stages::analyze and write_to_string from the MIR return a value (library, diagnostics or text): no panic, and within the step budget' % depths)
+    jobs = [(k, pou, depths) for k in NEST_KINDS for pou in (('FUNCTION_BLOCK', 'PROGRAM') if k in ('CASE', 'mixed', 'IF') else ('FUNCTION_BLOCK',))]
+    for part in par_map(_k8_job, jobs): merge_part(kr, part)
+    P = ctx.program()
+    kr.functions = fn_paths(P, getattr(kr, '_enc', set()))[:150]
+    kr.exhaustive = True
+    kr.outside = ['nesting deeper than 12; real stack depth of the native build (the interpreter has its own stack); wall-clock time of the native build']
+
+KERNELS = [k2, k3, k4, k5, k6, k7, k8]
